@@ -84,6 +84,35 @@ def _relations(fi, key, elems):
     return rel
 
 
+def _delegated_lookup(p, cls, fi, key):
+    """the accessor's own body has no lookup; a nested function or a private method of the class that it calls holds the
+    mnemonic_compare loop -> (helper, relations inside it, names standing for the key there, element names there)"""
+    cands = []
+    for nm, nf in fi.nested.items():
+        if not isinstance(nf.node, ast.Lambda):
+            cands.append((nf, True))
+    for c in walk_shallow(fi.node):
+        if isinstance(c, ast.Call) and isinstance(c.func, ast.Attribute) and isinstance(c.func.value, ast.Name) \
+                and c.func.value.id == "self" and c.func.attr.startswith("_") and not c.func.attr.startswith("__"):
+            m = cls.find_method(c.func.attr)
+            if m is not None and m is not fi:
+                cands.append((m, False))
+    for hf, nested in cands:
+        hparams = hf.params()
+        if nested:
+            hkey = {key, key + ".mnemonic"}
+            loops = _self_loops(fi)
+            helems = set(hparams) | {e for (_, e, _, _) in loops}
+        else:
+            hk = hparams[1] if len(hparams) > 1 else None
+            hkey = {hk, "%s.mnemonic" % hk} if hk else set()
+            helems = {e for (_, e, _, _) in _self_loops(hf)}
+        rels = _relations(hf, key if nested else (hparams[1] if len(hparams) > 1 else key), helems)
+        if any(r[0] == "compare" for r in rels):
+            return hf, rels, hkey, helems
+    return None
+
+
 ACCESSORS = {
     "__contains__": {"action": "return-true"},
     "__getitem__": {"action": "return-elem"},
@@ -125,6 +154,34 @@ def rule_accessors(ctx):
                 if not ok:
                     problems.append((node, "compares %s: the lookup must match the key against item.mnemonic "
                                            "(the session mnemonic) only" % ", ".join(args)))
+        delegated = None
+        if not cmp_rels and not any(in_block(r[1], [l[0]]) for r in rels for l in loops):
+            delegated = _delegated_lookup(p, cls, fi, key)
+        if delegated is not None:
+            hf, hrels, hkey, helems = delegated
+            for kind, node, args in hrels:
+                if kind == "raw":
+                    if isinstance(node, ast.Compare) and len(node.ops) == 1 and isinstance(node.ops[0], ast.Is):
+                        continue
+                    problems.append((node, "the lookup helper %s relates the key to an item with `%s` instead of "
+                                           "self.mnemonic_compare(key, item.mnemonic)" % (hf.qual, args[0])))
+                else:
+                    okc = False
+                    if len(args) == 2:
+                        for a, b in ((args[0], args[1]), (args[1], args[0])):
+                            if a in hkey and any(b == e + ".mnemonic" for e in helems):
+                                okc = True
+                    if not okc:
+                        problems.append((node, "the lookup helper %s compares %s: the lookup must match the key against "
+                                               "item.mnemonic only" % (hf.qual, ", ".join(args))))
+            if problems:
+                for node, msg in problems:
+                    ctx.bad("SI.ACCESSORS", site, fi, node, "%s: %s" % (mname, msg))
+            else:
+                ctx.undecided("SI.ACCESSORS", site, fi, fi.node, "%s delegates its lookup to %s (which matches with mnemonic_compare "
+                              "against item.mnemonic); first-match / action / fall-through shape not decided in this form"
+                              % (mname, hf.qual))
+            continue
         if not cmp_rels:
             problems.append((fi.node, "no self.mnemonic_compare(key, item.mnemonic) lookup found"))
         # exactly one lookup loop, iterating self in order
